@@ -930,7 +930,6 @@ class Facts:
         self.field_renamed = {}
         if 'routinator' in os.path.basename(path):
             _RENAME.clear()
-            _norm.cache_clear() if False else None
         with open(path) as f:
             for line in f:
                 if line.startswith('{"k":"body","id":"'):
@@ -1025,6 +1024,11 @@ class Facts:
                 came = [(n, t) for n, t in newn if n not in [y[0] for y in oldn]]
                 for (gn, gt) in gone:
                     cands = [(cn, ct) for cn, ct in came if ct == gt]
+                    if len(cands) > 1 and len(oldn) == len(newn):
+                        # several fields of one type were renamed: same position in the struct = same field
+                        pos = [i for i, (n, t) in enumerate(oldn) if n == gn][0]
+                        if newn[pos][1] == gt and newn[pos] in cands:
+                            cands = [newn[pos]]
                     if len(cands) == 1 and all_names.get(cands[0][0], 0) == 1 and not cands[0][0].isdigit():
                         self.field_renamed[cands[0][0]] = gn
                         for x in v['fields']:
